@@ -20,9 +20,10 @@ ASSUMPTIONS = ["y^2 = x^3 + 7 is singular over F_3 and F_7 (discriminant -2^4*3^
                "is checked, the group laws are checked for every other prime in [5,101]",
                "generic Point.__rmul__ is exercised with coefficient >= 0 only (a negative one loops forever in "
                "Python; S256Point reduces mod N first)",
-               "small-curve correspondence sweeps are over FieldElement operands of one field (the mixed-field / mixed-curve "
-               "TypeError and the == / != operators are not in the Coq model; they are checked by the predicates "
-               "fe_eq / pt_eq_small / s256_eq on the implementation)"]
+               "the object layer (operands carrying their own prime / their own a and b: mixed-field and mixed-curve TypeError, "
+               "== / !=, half-defined points, S256Point.__eq__/__ne__, combine) is modelled in Model/PeccObj.v and run against the "
+               "implementation by the o_* / s_eq / s_ne / s_combine correspondence cases; Proofs/PeccObjP.v proves that on operands "
+               "of one curve it computes exactly Model/Pecc.v; Point over plain Python ints (int_points) is not modelled"]
 BUDGET_S = {"quick": 170, "thorough": 1700}
 
 P = pecc.P
@@ -61,6 +62,33 @@ def i_pt_rmul(C, k, v):
     return _out(Point.__rmul__(pt, k))
 
 
+def _fe(v):
+    """FieldElement from [num, prime]; [] is None"""
+    return None if len(v) == 0 else FE(v[0], v[1])
+
+
+def _feo(e):
+    return [] if e is None else [e.num, e.prime]
+
+
+def _gpt(v):
+    """generic Point from [x, y, a, b] (each a FieldElement spec) through the real constructors"""
+    return Point(_fe(v[0]), _fe(v[1]), _fe(v[2]), _fe(v[3]))
+
+
+def _gout(pt):
+    return [_feo(pt.x), _feo(pt.y), _feo(pt.a), _feo(pt.b)]
+
+
+_FE_BIN = [lambda u, v: u + v, lambda u, v: u - v, lambda u, v: u * v, lambda u, v: u / v]
+
+
+def i_gp_rmul(k, pt):
+    if k < 0:
+        raise ValueError("generic __rmul__ does not terminate on a negative coefficient")
+    return Point.__rmul__(pt, k)
+
+
 # too slow inside Coq (256-bit curve arithmetic): not part of the extraction self-check
 VM_SKIP = {"s_rmul", "s_add_int", "s_even_point", "s_sqrt", "s_parse_sec", "s_parse_xonly", "s_parse", "pt_rmul"}
 
@@ -85,6 +113,20 @@ IMPL = {
     "s_parse_sec": lambda C, b: _out(S256Point.parse_sec(b)),
     "s_parse_xonly": lambda C, b: _out(S256Point.parse_xonly(b)),
     "s_parse": lambda C, b: _out(S256Point.parse(b)),
+    # object layer (Model/PeccObj.v): FieldElement = [num, prime] / [] for None, generic Point = [x, y, a, b]
+    "o_fe_eq": lambda C, a, b: _fe(a) == _fe(b),
+    "o_fe_ne": lambda C, a, b: _fe(a) != _fe(b),
+    "o_fe_op": lambda C, op, a, b: _feo(_FE_BIN[op](_fe(a), _fe(b))),
+    "o_fe_pow": lambda C, a, e: _feo(_fe(a) ** e),
+    "o_fe_rmul": lambda C, k, a: _feo(k * _fe(a)),
+    "o_pt_new": lambda C, v: _gout(_gpt(v)),
+    "o_pt_eq": lambda C, v, w: _gpt(v) == _gpt(w),
+    "o_pt_ne": lambda C, v, w: _gpt(v) != _gpt(w),
+    "o_pt_add": lambda C, v, w: _gout(_gpt(v) + _gpt(w)),
+    "o_pt_rmul": lambda C, k, v: _gout(i_gp_rmul(k, _gpt(v))),
+    "s_eq": lambda C, v, w: _pt(SECP, v) == _pt(SECP, w),
+    "s_ne": lambda C, v, w: _pt(SECP, v) != _pt(SECP, w),
+    "s_combine": lambda C, vs: _out(S256Point.combine([_pt(SECP, v) for v in vs])),
 }
 
 
@@ -492,6 +534,13 @@ def p_parse(b):
         got = _parse_res(S256Point.parse_xonly, b)
         if got != want:
             return f"parse_xonly: got {got}, a strict decoder gives {want}"
+    # converse of the round trip (C03_parse_sound_canonical): an accepted string IS the canonical encoding of the
+    # returned point in the same format — no second byte string decodes to the same point
+    if want != "reject":
+        pt = S256Point.parse(b)
+        back = _outcome(lambda: pt.xonly() if len(b) == 32 else pt.sec(compressed=(len(b) == 33)))
+        if back != ("ok", b):
+            return f"parse accepts {b.hex()} but re-encoding the returned point gives {back}"
     return None
 
 
@@ -902,6 +951,37 @@ def p_combine(ks):
     return None
 
 
+def p_layers(k, j, a, b):
+    """layers that are proved separately, composed on the implementation (C03_rmul_raw_eq_rmul, C03_parse_xonly_is_even_point,
+    C03_even_point_idem, C03_pubkey_sec_parse, C03_encoded_keys_add): the generic Point.__rmul__ (no reduction of the
+    coefficient, k >= 0 — also k >= n) and S256Point.__rmul__ agree; parse(P.xonly()) is P.even_point(); even_point is
+    idempotent; secret -> point -> SEC -> parse returns the point; decoded keys add like their secrets"""
+    Pt = _sp(j_mul(j, (GX, GY)))
+    if k >= 0:
+        g = _outcome(lambda: _tup(Point.__rmul__(Pt, k)))
+        s_ = _outcome(lambda: _tup(k * Pt))
+        want = ("ok", j_mul(k * j, (GX, GY)))
+        if g != want or s_ != want:
+            return f"k={k:#x}: generic __rmul__ gives {g}, S256Point.__rmul__ gives {s_}, reference {want}"
+    if Pt.x is not None:
+        ev = _outcome(lambda: _tup(Pt.even_point()))
+        viax = _outcome(lambda: _tup(S256Point.parse(Pt.xonly())))
+        twice = _outcome(lambda: _tup(Pt.even_point().even_point()))
+        if ev[0] != "ok" or viax != ev or twice != ev or ev[1][1] % 2 or ev[1][0] != Pt.x.num:
+            return f"even_point {ev}, parse(xonly) {viax}, even_point twice {twice}"
+    if 1 <= a < N and 1 <= b < N:
+        for c1 in (True, False):
+            for c2 in (True, False):
+                def run():
+                    A, B = pecc.PrivateKey(a).point, pecc.PrivateKey(b).point
+                    A2, B2 = S256Point.parse(A.sec(c1)), S256Point.parse(B.sec(c2))
+                    return (_tup(A2) == _tup(A), _tup(B2) == _tup(B), _tup(A2 + B2))
+                got = _outcome(run)
+                if got != ("ok", (True, True, j_mul(a + b, (GX, GY)))):
+                    return f"keys {a:#x}, {b:#x} through SEC ({c1}, {c2}) and back, then added: {got}"
+    return None
+
+
 def p_privkey_point(secret):
     """PrivateKey(secret).point is secret*G (Jacobian reference) for 1 <= secret <= n-1; a secret outside that range
     is refused (it would give infinity or a second name for another key)"""
@@ -915,7 +995,7 @@ def p_privkey_point(secret):
     return None
 
 
-PROPS = {"privkey_point": p_privkey_point, "int_points": p_int_points, "field_axioms": p_field_axioms, "small_curve": p_small_curve, "group_ids": p_group_ids,
+PROPS = {"layers": p_layers, "privkey_point": p_privkey_point, "int_points": p_int_points, "field_axioms": p_field_axioms, "small_curve": p_small_curve, "group_ids": p_group_ids,
          "point_laws": p_point_laws, "scalar": p_scalar, "sec_rt": p_sec_rt, "parse": p_parse,
          "double_y0": p_double_y0, "fe_reuse": p_fe_reuse, "pt_reuse_small": p_pt_reuse_small,
          "s256_reuse": p_s256_reuse, "parse_history": p_parse_history,
@@ -962,7 +1042,108 @@ def small_curve_params(p, r=None):
     return out
 
 
+def _generate_obj(ctx):
+    """correspondence of the object layer (Model/PeccObj.v): == / != with None and across fields, + - * / ** across
+    fields, the generic constructor (half-defined, off-curve, mixed-field arguments), Point == / != / + / k* across
+    curves, S256Point == / !=, S256Point.combine"""
+    r = ctx.rng
+    thorough = ctx.tier == "thorough"
+    D = [5, 0, 2, 1, 0, 0]                       # the curve argument is not used by the o_* entry points
+    pairs = [(2, 3), (3, 2), (5, 7), (7, 5), (5, 5), (11, 13)] + ([(13, 11), (31, 29), (43, 47), (1, 2), (2, 1)] if thorough else [(1, 2)])
+    for (p, q) in pairs:
+        ctx.label("obj/field elements of F_p and F_q: == != + - * /")
+        es = [[a, p] for a in range(p)]
+        fs = [[b, q] for b in range(q)] + [[]]
+        for a in es:
+            for b in fs:
+                yield ("corr", "o_fe_eq", [D, a, b])
+                yield ("corr", "o_fe_ne", [D, a, b])
+                yield ("corr", "o_fe_eq", [D, b, a])
+                yield ("corr", "o_fe_ne", [D, b, a])
+                if b:
+                    for op in range(4):
+                        yield ("corr", "o_fe_op", [D, op, a, b])
+            for e in (0, 1, 2, 3, p - 2, p - 1, p, -1, -2, -p, 10 ** 20 + 3):
+                yield ("corr", "o_fe_pow", [D, a, e])
+            for k in (-2, 0, 1, 3, p):
+                yield ("corr", "o_fe_rmul", [D, k, a])
+        yield ("corr", "o_fe_eq", [D, [], []])
+        yield ("corr", "o_fe_ne", [D, [], []])
+        # out-of-range constructor arguments
+        for bad in ([p, p], [-1, p], [0, 0], [0, -3], [p + 3, p]):
+            yield ("corr", "o_fe_eq", [D, bad, [0, p]])
+            yield ("corr", "o_fe_op", [D, 0, [0, p], bad])
+            yield ("corr", "o_fe_pow", [D, bad, 2])
+    for p in [5, 11, 13] + ([17, 19, 43] if thorough else []):
+        a, b = 0, 7 % p
+        others = [((a + 1) % p, b, p), (a, (b + 1) % p, p), ((a + 1) % p, (b + 1) % p, p)]
+        q = 7 if p != 7 else 11
+        pts = ref_points(p, a, b)
+
+        def spec(A, a_, b_, p_, pa=None, pb=None):
+            pa, pb = pa or p_, pb or p_
+            return [[] if A is None else [A[0], p_], [] if A is None else [A[1], p_], [a_ % pa, pa], [b_ % pb, pb]]
+        own = [spec(A, a, b, p) for A in pts]
+        ctx.label("obj/generic points of one curve: == != + k*")
+        for v in own:
+            yield ("corr", "o_pt_new", [D, v])
+            for w in own:
+                yield ("corr", "o_pt_eq", [D, v, w])
+                yield ("corr", "o_pt_ne", [D, v, w])
+                yield ("corr", "o_pt_add", [D, v, w])
+            for k in (0, 1, 2, 3, 5, len(pts), len(pts) + 1):
+                yield ("corr", "o_pt_rmul", [D, k, v])
+        yield ("corr", "o_pt_rmul", [D, -1, own[-1]])
+        foreign = []
+        for (a2, b2, p2) in others:
+            pts2 = ref_points(p2, a2, b2)
+            foreign += [spec(A, a2, b2, p2) for A in pts2[:3] + [B for B in pts2 if B in pts][:2]]
+        # infinity whose a and b live in two different fields; a curve over another prime
+        foreign += [spec(None, a, b, p, p, q), spec(None, a, b, p, q, p), spec(None, a, b, q), spec(None, a, b + 1, p)]
+        foreign += [spec(A, a, b, q) for A in ref_points(q, a, b % q)[:3]]
+        ctx.label("obj/points of two curves / two fields: == != +")
+        for v in own[:5] + own[-2:]:
+            for w in foreign:
+                for (s_, t_) in ((v, w), (w, v)):
+                    yield ("corr", "o_pt_eq", [D, s_, t_])
+                    yield ("corr", "o_pt_ne", [D, s_, t_])
+                    yield ("corr", "o_pt_add", [D, s_, t_])
+        for w in foreign:
+            yield ("corr", "o_pt_new", [D, w])
+            yield ("corr", "o_pt_rmul", [D, 3, w])
+        ctx.label("obj/constructor: half-defined, off-curve, mixed-field arguments")
+        fa, fb = [a, p], [b, p]
+        for x in range(p):
+            yield ("corr", "o_pt_new", [D, [[x, p], [], fa, fb]])
+            yield ("corr", "o_pt_new", [D, [[], [x, p], fa, fb]])
+            for y in range(p if p <= 13 else 4):
+                yield ("corr", "o_pt_new", [D, [[x, p], [y, p], fa, fb]])
+        A = pts[-1]
+        for v in ([[A[0], p], [A[1] % q, q], fa, fb], [[A[0] % q, q], [A[1], p], fa, fb], [[A[0], p], [A[1], p], [a, q], fb],
+                  [[A[0], p], [A[1], p], fa, [b % q, q]], [[A[0], p], [A[1], p], [a, q], [b % q, q]], [[p, p], [A[1], p], fa, fb],
+                  [[A[0], p], [-1, p], fa, fb], [[A[0], p], [A[1], p], [p, p], fb], [[], [], [a, q], fb], [[], [], fa, [-1, p]]):
+            yield ("corr", "o_pt_new", [D, v])
+            yield ("corr", "o_pt_eq", [D, v, own[0]])
+            yield ("corr", "o_pt_add", [D, own[0], v])
+    # S256Point == / != and combine
+    ks = [1, 2, N - 1, N - 2, r.randrange(1, N), r.randrange(1, N)]
+    sp = [[]] + [list(j_mul(k, (GX, GY))) for k in ks]
+    sp += [[v[0], P - v[1]] for v in sp[1:3]]
+    ctx.label("obj/S256Point == != on equal, opposite, distinct, infinity")
+    for v in sp:
+        for w in sp:
+            yield ("corr", "s_eq", [SECP, v, w])
+            yield ("corr", "s_ne", [SECP, v, w])
+    yield ("corr", "s_eq", [SECP, [GX, GY + 1], [GX, GY]])
+    for lst in [[], [sp[1]], [[]], [sp[1], sp[1]], [sp[1], sp[3]], [sp[1], [], sp[2]], [sp[2], sp[2], sp[2]], [[], []],
+                [sp[1], sp[2], sp[3], sp[4]], [sp[5], sp[6], sp[5]], [sp[1], [GX, GY + 1]], [[P, 0], sp[1]]] + \
+               [[r.choice(sp) for _ in range(r.randrange(2, 6))] for _ in range(ctx.n(4, 40))]:
+        ctx.label("obj/S256Point.combine")
+        yield ("corr", "s_combine", [SECP, lst])
+
+
 def generate(ctx):
+    yield from _generate_obj(ctx)
     yield from _generate_eq(ctx)
     yield from _generate(ctx)
     for (x, y, a, b) in [(-1, -1, 5, 7), (-1, 1, 5, 7), (2, 5, 5, 7), (3, -7, 5, 7), (18, 77, 5, 7)]:
@@ -1026,6 +1207,12 @@ def _generate_eq(ctx):
                   [r.randrange(1, N) for _ in range(ctx.n(4, 40))]:
         ctx.label("privkey/point of a secret (boundaries 0, 1, n-1, n)")
         yield ("prop", "privkey_point", [secret])
+    for (k_, j_, a_, b_) in [(0, 1, 1, N - 1), (N, 5, 1, 1), (N + 1, 7, 2, N - 2), (2 * N + 3, N - 1, N - 1, N - 1), ((1 << 256) + 5, 2, 3, 4),
+                             (N - 1, N - 1, (N - 1) // 2, (N + 1) // 2), (1, 0, 1, 2), (P, 3, 5, 6)] + \
+                            [(r.choice([r.randrange(N), r.randrange(N, 1 << 264), r.getrandbits(40)]), r.randrange(1, N),
+                              r.randrange(1, N), r.randrange(1, N)) for _ in range(ctx.n(5, 60))]:
+        ctx.label("layers/generic vs reduced __rmul__, xonly -> parse = even_point, keys through SEC")
+        yield ("prop", "layers", [k_, j_, a_, b_])
     k, j = r.randrange(1, N), r.randrange(1, N)
     for ks in [[1], [1, -1], [1, 1], [k, j, -k], [0, k], [k, 0, 0, j], [k, k, k], [-k, 0, k], [0, 0], [0],
                [1, 2, 3, 4, 5, 6, 7, 8]] + [[r.choice([0, 1, -1, k, -k, j, r.randrange(1, N)]) for _ in range(r.randrange(2, 7))]
